@@ -5,8 +5,8 @@ IDS=${@:-$(python3 -c "import json;print(' '.join(c['property_id'] for c in json
 cd /verif
 for id in $IDS; do
   s=$(date +%s)
-  ./bin/verifctl check $id --tier $TIER > /tmp/runall-$id.log 2>&1
+  ./bin/verifctl check $id --tier $TIER > /tmp/runall-$TIER-$id.log 2>&1
   rc=$?
   e=$(date +%s)
-  echo "$id rc=$rc $((e-s))s $(grep -c '^VIOLATION' /tmp/runall-$id.log) violations, $(grep -c '^KNOWN-FINDING' /tmp/runall-$id.log) known, $(grep -c '^INCOMPLETE' /tmp/runall-$id.log) incomplete | $(tail -1 /tmp/runall-$id.log | cut -c1-220)"
+  echo "$id rc=$rc $((e-s))s $(grep -c '^VIOLATION' /tmp/runall-$TIER-$id.log) violations, $(grep -c '^KNOWN-FINDING' /tmp/runall-$TIER-$id.log) known, $(grep -c '^INCOMPLETE' /tmp/runall-$TIER-$id.log) incomplete | $(tail -1 /tmp/runall-$TIER-$id.log | cut -c1-220)"
 done
